@@ -4,7 +4,7 @@
    prodl = product of a list; `s` is the stream of generator outputs the code consumes (any stream). *)
 From Coq Require Import ZArith List Znumtheory.
 From C09 Require Import Model Model2 ProofsAlg ProofsDiv ProofsSplit ProofsIrr ProofsCZ ProofsReq ProofsSweepIrr ProofsSweepSqr ProofsSweepOrd
-  ProofsPow ProofsOrd ProofsRep ProofsSqr.
+  ProofsPow ProofsOrd ProofsRep ProofsSqr ProofsRep2.
 Import ListNotations.
 Local Open Scope Z_scope.
 
@@ -259,3 +259,48 @@ Print Assumptions C09_czfactor_invents_no_factor.
 Theorem C09_czfactor_factors_are_the_radical_cofactor : Czfactor_radical_stmt.
 Proof. exact czfactor_radical_thm. Qed.
 Print Assumptions C09_czfactor_factors_are_the_radical_cofactor.
+
+(* ------------------------------------------------------------------------------------------------------------------------------------
+   The square-free decomposition and CZfactor AS THEY ARE IN THE TREE NOW (repair ffdc6c6 = frag/C09.fix-6: Model2.sqrfree_rep, czfactor_rep;
+   the theorems above about Model.sqrfree describe the former Yun loop).  Every prime p, every canonical non-zero input, every size. *)
+(* the gcd(W,C) loop: when it is not left by `count >= Nfact` it ended because W became constant (the bound on the number of rounds is
+   proved), and then  parts^multiplicities * leftover * non-zero constant = A = P / lc P; the leftover C' is canonical, non-zero, has
+   derivative zero and is a polynomial in X^p (proved, not assumed) *)
+Theorem C09_sqrfree_loop_invariant : Mus_loop_stmt.
+Proof. exact mus_loop_thm. Qed.
+Print Assumptions C09_sqrfree_loop_invariant.
+(* whichever way the loop ends (also the early exit): parts^multiplicities * Wf^(count+1) * leftover = A *)
+Theorem C09_sqrfree_loop_invariant_any_exit : Mus_loop_any_exit_stmt.
+Proof. exact mus_loop_any_exit_thm. Qed.
+Print Assumptions C09_sqrfree_loop_invariant_any_exit.
+(* the p-th-root branch: (a+b)^p = a^p + b^p, c^p = c, g(X)^p = g(X^p) modulo p; `proot` (coefficients at the multiples of p) is a p-th
+   root of every polynomial in X^p *)
+Theorem C09_frobenius : Frobenius_stmt.
+Proof. exact frobenius_thm. Qed.
+Print Assumptions C09_frobenius.
+Theorem C09_fermat : Fermat_stmt.
+Proof. exact fermat_thm. Qed.
+Print Assumptions C09_fermat.
+Theorem C09_pth_root_is_a_root : Proot_pow_stmt.
+Proof. exact proot_pow_thm. Qed.
+Print Assumptions C09_pth_root_is_a_root.
+(* UNCONDITIONAL: "square-free decomposition multiplies back to the input up to a constant", whatever the multiplicities and the
+   characteristic, as soon as Nfact >= deg P (CZfactor passes deg P + 1): count = number of parts stored and
+   prod_i Fact[i]^(i+1) * (non-zero constant) = P / lc P.  (Parts square-free and pairwise coprime: sweep theorem only.) *)
+Theorem C09_sqrfree_multiplies_back : Sqrfree_rep_correct_stmt.
+Proof. exact sqrfree_rep_correct_thm. Qed.
+Print Assumptions C09_sqrfree_multiplies_back.
+Example C09_sqrfree_multiplies_back_hypotheses_satisfiable : prime 2 /\ canon 2 [0; 0; 0; 0; 1; 0; 0; 0; 1] /\ 0 < 9 /\
+  deg [0; 0; 0; 0; 1; 0; 0; 0; 1] <= 9 /\ (length [0; 0; 0; 0; 1; 0; 0; 0; 1] <= 10)%nat /\
+  sqrfree_rep 2 10 9 [0; 0; 0; 0; 1; 0; 0; 0; 1] = (4, [[1]; [1]; [1]; [0; 1; 1]]).
+Proof. exact sqrfree_rep_correct_example. Qed.
+(* UNCONDITIONAL, every MOD and every stream of random choices: "factors whose product with the returned multiplicities equals the input up
+   to a non-zero constant, so no factor is lost or invented, whatever the multiplicities": every returned factor divides P, |Lf| = |Le|,
+   multiplicities >= 1, prod_i Lf_i^Le_i * (non-zero constant) = P.  (Irreducibility of the factors: not proved beyond the sweeps; decided per
+   run by the verified checker irreducible_b / the python oracle.) *)
+Theorem C09_czfactor_multiplies_back_and_invents_no_factor : Czfactor_rep_correct_stmt.
+Proof. exact czfactor_rep_correct_thm. Qed.
+Print Assumptions C09_czfactor_multiplies_back_and_invents_no_factor.
+Example C09_czfactor_hypotheses_satisfiable : prime 3 /\ canon 3 [0; 0; 0; 2; 2] /\
+  czfactor_rep 3 [0; 0; 0; 2; 2] 3 [1; 2; 1; 1; 2; 0; 1] = Some ([[1; 1]; [0; 1]], [1; 3], [1; 2; 1; 1; 2; 0; 1]).
+Proof. exact czfactor_rep_correct_example_char3. Qed.
